@@ -501,6 +501,9 @@ def _stage(seed, tier, key="N-x"):
     pkgs.append(("unicode_types", UNICODE_TYPES, ["k.go"], None, dict(kind="naming: type names starting with a non-ASCII upper-case letter", run=True)))
     pkgs.append(("generic_alias", GENERIC_ALIAS, ["k.go"], None, dict(kind="types: instances of generic aliases, a qualified constant in the requested type", run=True)))
     pkgs.append(("alias_capture", ALIAS_CAPTURE, ["k.go"], None, dict(kind="naming: a renamed import and a local of a copied literal", run=True)))
+    import stage_det
+    pkgs.append(("suffix_sibling", dict(stage_det.SUFFIXNAME, **{"main.go": "package main\n\nfunc main() {}\n"}), ["k.go"], None,
+                 dict(kind="a sibling source whose name ends in the target's name", expect_funcs={"k_band.go": ["InitApp"]})))
     pkgs.append(("xset", XSET, ["k.go"], "KF-C10-1", dict(kind="known finding reproducer (Set of another package)", signature="no vet signature: the file compiles",
                                                        expect_params={"k_band.go": {"InitB": []}}, known_params={"k_band.go": {"InitB": ["*prov.A"]}})))
     for kid, (body, sig) in KNOWN.items():
